@@ -122,6 +122,7 @@ pub fn run(o: &DetectOpts) -> serde_json::Value {
     let mut rng = Rng::new(o.seed);
     let mut drv = Driver::start(&o.driver);
     let mut cases: Vec<Case> = vec![];
+    let mut replay_c13_texts: Vec<(String, NormalizerSettings, bool)> = vec![];
     if let Some(p) = &o.replay {
         let v: serde_json::Value = serde_json::from_str(&std::fs::read_to_string(p).expect("replay file")).expect("json");
         let items = if v.is_array() { v.as_array().unwrap().clone() } else { vec![v] };
@@ -129,6 +130,11 @@ pub fn run(o: &DetectOpts) -> serde_json::Value {
             let c = if it.get("case").is_some() { it["case"].clone() } else { it.clone() };
             if let Some(h) = c["bytes_hex"].as_str() {
                 cases.push(Case { kind: "replay".into(), bytes: unhex(h), settings: settings_from_json(&c["settings"]) });
+            } else if c["kind"].as_str() == Some("c13-text") {
+                // one text in every round-tripping encoding, probed alone: same verdict and chaos
+                let t = String::from_utf8(unhex(c["text_hex"].as_str().unwrap_or("-"))).unwrap_or_default();
+                let s = settings_from_json(&c["settings"]);
+                replay_c13_texts.push((t, s, c["with_bom"].as_bool().unwrap_or(false)));
             }
         }
     } else {
@@ -480,6 +486,15 @@ pub fn run(o: &DetectOpts) -> serde_json::Value {
                 violations.push(json!({"prop": x.prop, "what": x.what, "known": x.known,
                     "case": {"kind": "c13-text", "text_hex": hex(t.as_bytes()), "with_bom": k % 2 == 0, "settings": settings_json(&s)}}));
             }
+        }
+    }
+    for (t, s, with_bom) in &replay_c13_texts {
+        let (f, n) = check_c13_text(t, s, *with_bom);
+        c13_texts += 1;
+        c13_encodings += n as u64;
+        for x in f {
+            violations.push(json!({"prop": x.prop, "what": x.what, "known": x.known,
+                "case": {"kind": "c13-text", "text_hex": hex(t.as_bytes()), "with_bom": with_bom, "settings": settings_json(s)}}));
         }
     }
     let rep = json!({
